@@ -6,8 +6,8 @@
              cotangent 0), so that running it in IEEE doubles reproduces jax.grad's inf/NaN pattern;
      safeb : every partial primitive in EVERY branch is applied strictly inside its smooth domain.
    The terms below are the formulas AS CODED NOW in tanh.py, rational_quadratic_spline.py, softplus.py,
-   exp.py, affine.py, plus the [_old] formulas before the repairs 81a9f7e (LeakyTanh.inverse without
-   y_robust) and 2486bd0 (spline bin index not clipped).  [eval O env term] is definitionally the
+   exp.py, affine.py, plus the formulas before the repairs 81a9f7e (LeakyTanh.inverse without y_robust: [_old]),
+   2486bd0 (spline bin index not clipped: [_old]) and c2cb03d (out-of-interval inputs replaced by the literal 0: [_zero]).  [eval O env term] is definitionally the
    corresponding function of Model/Leaves.v (Proofs/ExprP.v, by reflexivity).  No proofs, no reals. *)
 From Coq Require Import List ZArith Bool.
 From FJ Require Import Model.Num.
